@@ -155,7 +155,12 @@ func (cfg *Config) applyOverrides() error {
 		if obj, ok := cfg.globals[moduleName]; ok {
 			if m, ok := obj.(*object.Module); ok {
 				if targetMod, ok := resolveModule(m, nestedModulePath); ok {
-					targetMod.Override(attrName, valueObj)
+					// An override that the module refuses (it has no such
+					// attribute) is reported like an invalid value: the
+					// script would otherwise get the original
+					if err := targetMod.Override(attrName, valueObj); err != nil && firstErr == nil {
+						firstErr = fmt.Errorf("init error: global override %q: %v", name, err)
+					}
 				}
 			}
 		}
